@@ -29,7 +29,14 @@
 //	    token; every Wait number i returned at or after (instant just before the first Next) + offset of
 //	    token i in the CONFIGURED profile.
 //
-//	start <perinst 0|1> <T> <rps-spec> <A> <K> <startup-spec> <shoot_us> <cancel_ms> <failgun> <provrun> [<slow>]
+//	cleft <spec> <draws>
+//	    the real composite schedule built from <spec> (once / const / istep parts = a known number of tokens,
+//	    unl:<ms> = unlimited), never Start()ed: Left() before the first Next and after each of <draws> Next
+//	    calls.  Observation: "<n> v0,v1,..." (-1 = unknown).  The engine takes Left() == 0 of the shared rps
+//	    profile for its end (instances leave, instance start is cancelled).
+//
+//	start <perinst 0|1> <T> <rps-spec> <A> <K> <startup-spec> <shoot_us> <cancel_ms> <failgun> <provrun> [<slow> [<do>]]
+//	    do (optional, default 0) = 1: the pool option discard_overflow is on (the CLI's default)
 //	    runs the real engine.Engine (one pool). T = tokens of one rps profile (-1: not finite),
 //	    A = ammo items: "<n>" n items (non-nil values), "n<n>" n items whose value is nil (a provider for
 //	    guns that need no ammo hands out (nil, true)), "d" the real core/provider.Dummy (nil ammo, never
@@ -236,12 +243,18 @@ func (s *rpsSched) Left() int {
 	return l
 }
 
+// total duration of the unlimited parts of a profile (a lower bound of how long the profile lasts)
 func unlDuration(spec string) time.Duration {
-	if strings.HasPrefix(spec, "unl:") {
-		return ms(spec[4:])
+	var d time.Duration
+	for _, p := range strings.Split(expandSpec(spec), "+") {
+		if strings.HasPrefix(p, "unl:") {
+			d += ms(p[4:])
+		}
 	}
-	return 0
+	return d
 }
+
+func hasUnl(spec string) bool { return unlDuration(spec) > 0 }
 
 func newRPS(spec string, T int, fin, falseFin *atomic.Bool) *rpsSched {
 	r := &rpsSched{inner: buildSched(spec), fin: fin, falseFin: falseFin, total: int64(T)}
@@ -255,7 +268,7 @@ func runFincb(f []string) string {
 	g, _ := strconv.Atoi(f[2])
 	reps, _ := strconv.Atoi(f[3])
 	T := -1
-	if !strings.HasPrefix(f[1], "unl:") {
+	if !hasUnl(f[1]) {
 		T = startupCount(f[1])
 	}
 	early, fired, multi := 0, 0, 0
@@ -509,6 +522,21 @@ func runDrain(f []string) string {
 	return fmt.Sprintf("%d %s %s %s", len(offs), rleDur(offs, base), vh.B(anchored), rleDur(exp, 0))
 }
 
+// cleft <spec> <draws>: the real composite built from <spec> (parts with a known number of tokens and
+// unlimited parts), never Start()ed; Left() before the first Next and after each of <draws> calls of Next.
+func runCleft(f []string) string {
+	draws, _ := strconv.Atoi(f[2])
+	s := buildSched(f[1])
+	vals := []string{strconv.Itoa(s.Left())}
+	for i := 0; i < draws; i++ {
+		if _, ok := s.Next(); !ok {
+			break
+		}
+		vals = append(vals, strconv.Itoa(s.Left()))
+	}
+	return fmt.Sprintf("%d %s", len(vals), strings.Join(vals, ","))
+}
+
 func runIstep(f []string) string {
 	from, _ := strconv.ParseInt(f[1], 10, 64)
 	to, _ := strconv.ParseInt(f[2], 10, 64)
@@ -627,6 +655,7 @@ func runStart(f []string) string {
 	if len(f) > 11 {
 		slowMode, slowDur = parseSlow(f[11])
 	}
+	discardOverflow := len(f) > 12 && f[12] == "1"
 	cancelMs, _ := strconv.Atoi(f[8])
 	failMode, failGun := parseFail(f[9])
 	provRun, _ := strconv.Atoi(f[10])
@@ -688,6 +717,7 @@ func runStart(f []string) string {
 			return r, nil
 		},
 		StartupSchedule: st,
+		DiscardOverflow: discardOverflow,
 	}
 	eng := engine.New(zap.NewNop(), metrics, engine.Config{Pools: []engine.InstancePoolConfig{conf}})
 	ctx, cancel := context.WithCancel(context.Background())
@@ -805,7 +835,9 @@ func runCase(c string) string {
 	switch {
 	case f[0] == "istep" && len(f) == 5:
 		return runIstep(f)
-	case f[0] == "start" && (len(f) == 11 || len(f) == 12):
+	case f[0] == "cleft" && len(f) == 3:
+		return runCleft(f)
+	case f[0] == "start" && (len(f) == 11 || len(f) == 12 || len(f) == 13):
 		return runStart(f)
 	case f[0] == "wait" && len(f) == 3:
 		return runWait(f)
@@ -889,6 +921,47 @@ func genFail(r *vh.Rand, perInst bool, lo, hi int) string {
 	return strconv.Itoa(k)
 }
 
+// a composite of 1-6 parts with a known number of tokens (0, 1, 2 ... - the boundary is exactly one token in
+// front of an unlimited part), in most cases with an unlimited part at the end or in the middle; as many
+// draws as the known parts in front of the unlimited one have tokens, plus a few
+func genCleft(r *vh.Rand) string {
+	n := r.Range(1, 6)
+	var parts []string
+	known := 0
+	for i := 0; i < n; i++ {
+		switch r.Intn(8) {
+		case 0:
+			parts = append(parts, "once:0")
+		case 1, 2:
+			parts = append(parts, "once:1")
+			known++
+		case 3:
+			k := r.Range(2, 5)
+			parts = append(parts, fmt.Sprintf("once:%d", k))
+			known += k
+		case 4:
+			parts = append(parts, fmt.Sprintf("const:0:%d", r.PickInt([]int{0, 1, 5})))
+		case 5:
+			parts = append(parts, "const:100:20")
+			known += 2
+		case 6:
+			parts = append(parts, "const:37.5:40") // 1.5 -> one token
+			known++
+		default:
+			parts = append(parts, "istep:1:2:1:1")
+			known += 2
+		}
+	}
+	switch r.Intn(5) {
+	case 0: // finite
+		return fmt.Sprintf("cleft %s %d", strings.Join(parts, "+"), known+r.Range(0, 2))
+	case 1: // unlimited part in the middle
+		tail := fmt.Sprintf("once:%d", r.Range(0, 3))
+		return fmt.Sprintf("cleft %s+unl:3600000+%s %d", strings.Join(parts, "+"), tail, known+r.Range(0, 3))
+	}
+	return fmt.Sprintf("cleft %s+unl:3600000 %d", strings.Join(parts, "+"), known+r.Range(0, 3))
+}
+
 func gen(r *vh.Rand, tier string) []string {
 	var out []string
 	// instance_step boundary grid + random
@@ -906,6 +979,21 @@ func gen(r *vh.Rand, tier string) []string {
 	out = append(out, "fincb rep:400:once:2,once:0 6 15", "fincb rep:300:once:1,const:0:0,once:1 4 15", "fincb rep:1000:once:1 8 10")
 	out = append(out, "fincb once:50 4 200", "fincb once:1 8 300", "fincb once:0 3 100", "fincb const:2000:10 4 30",
 		"fincb once:20+const:2000:5+once:7 4 50", fmt.Sprintf("fincb unl:3600000 4 %d", stress), fmt.Sprintf("fincb unl:3600000 2 %d", stress/2))
+	// a profile whose tail is unlimited has no end to report, however few tokens the parts in front of it have
+	out = append(out, "fincb once:5+once:1+unl:3600000 4 30", "fincb once:3+const:0:0+once:1+unl:3600000 3 30", "fincb once:4+once:2+unl:3600000 4 20",
+		"fincb once:2+once:0+unl:3600000 2 20")
+	for i := 0; i < 4; i++ {
+		out = append(out, fmt.Sprintf("fincb once:%d+once:%d+unl:3600000 %d 20", r.Range(1, 6), r.Range(0, 2), r.Range(2, 5)))
+	}
+	out = append(out, "cleft once:3+once:1+unl:3600000 6", "cleft once:2+unl:3600000+once:4 4", "cleft once:0+unl:3600000 1", "cleft once:2+once:3 6",
+		"cleft once:1+const:0:5+once:1+once:1+unl:3600000 5", "cleft unl:3600000 2", "cleft once:4 5")
+	ncl := 40
+	if tier == "thorough" {
+		ncl = 800
+	}
+	for i := 0; i < ncl; i++ {
+		out = append(out, genCleft(r))
+	}
 	for i := 0; i < ni; i++ {
 		from := r.Range(0, 20)
 		to := r.Range(0, 60)
@@ -994,10 +1082,40 @@ func gen(r *vh.Rand, tier string) []string {
 		var T, A, shoot, cancelMs int
 		failGun := "0"
 		slow := "0"
+		discard := "0"
 		unlimitedAmmo := false // the case does not depend on the ammo running out: the real Dummy provider fits
 		var rps string
 		shoot = r.PickInt([]int{0, 100, 500})
-		switch r.Intn(13) {
+		cls := r.Intn(14)
+		if i < 2 {
+			cls = 13
+		}
+		switch cls {
+		case 13: // discard_overflow on and the first instance takes more than MaxOverdueDuration (2 s) to create: the
+			// startup tokens behind it are more than 2 s overdue; they are startup tokens, not shots
+			discard = "1"
+			switch r.Intn(4) {
+			case 0:
+				st = fmt.Sprintf("once:%d", r.Range(2, 5))
+			case 1:
+				st = fmt.Sprintf("once:1+const:0:%d+once:%d", r.PickInt([]int{10, 50}), r.Range(1, 3))
+			case 2:
+				st = fmt.Sprintf("istep:%d:%d:1:%d", r.Range(1, 2), r.Range(3, 5), r.PickInt([]int{10, 30}))
+			default:
+				st = fmt.Sprintf("const:100:%d", r.PickInt([]int{30, 50}))
+			}
+			K = startupCount(st)
+			slow = fmt.Sprintf("%s%d", r.Pick([]string{"g", "b"}), r.PickInt([]int{2300, 2500}))
+			if perInst {
+				T = r.Range(1, 4)
+				rps = fmt.Sprintf("once:%d", T)
+			} else {
+				T = -1
+				rps = "unl:400"
+			}
+			A = 100000
+			shoot = 0
+			unlimitedAmmo = true
 		case 12: // the first instance is slow to create and then fails, the run is cancelled from outside meanwhile
 			// (two causes at once; the engine reports the cancellation, not the pool failure)
 			D := r.PickInt([]int{20, 40})
@@ -1082,6 +1200,12 @@ func gen(r *vh.Rand, tier string) []string {
 			perInst = false
 			T = -1
 			rps = "unl:150"
+			if r.Chance(2, 3) { // a few tokens in front of the unlimited part: 0, exactly 1, more
+				rps = fmt.Sprintf("once:%d+once:%d+unl:150", r.Range(1, 4), r.Range(0, 2))
+				if r.Chance(1, 4) {
+					rps = fmt.Sprintf("once:%d+const:0:1+once:1+unl:150", r.Range(1, 3))
+				}
+			}
 			A = 10000000
 			shoot = 500
 		case 0, 1: // nothing cuts the start short: long rps profile, plenty of ammo
@@ -1135,7 +1259,10 @@ func gen(r *vh.Rand, tier string) []string {
 		if slow == "0" && r.Chance(1, 10) {
 			slow = fmt.Sprintf("%s%d", r.Pick([]string{"g", "b"}), r.PickInt([]int{5, 15}))
 		}
-		out = append(out, fmt.Sprintf("start %s %d %s %s %d %s %d %d %s %d %s", vh.B(perInst), T, rps, ammo, K, st, shoot, cancelMs, failGun, provRun, slow))
+		if discard == "0" && cancelMs == 0 && r.Chance(1, 3) {
+			discard = "1" // the flag alone changes nothing about instance start
+		}
+		out = append(out, fmt.Sprintf("start %s %d %s %s %d %s %d %d %s %d %s %s", vh.B(perInst), T, rps, ammo, K, st, shoot, cancelMs, failGun, provRun, slow, discard))
 	}
 	return out
 }
